@@ -348,6 +348,9 @@ def run(ctx):
             ctx.count("cases_timeout_from_config")
         if bad:
             report(world, bad, label, eff, w, kind, own)
+        elif len(ctx.samples) < 5 and uid[0] % 4999 == 7:
+            ctx.sample({'case': label, 'effective': dict((k, str(v)) for k, v in eff.items()),
+                        'frame': dict((k, w.get(k)) for k in ('op', 'version', 'consistency', 'serial_consistency', 'page_size', '_node'))})
 
     def mine():
         state['i'] += 1
